@@ -106,6 +106,21 @@ var specs = map[string]*Spec{
 		Assumptions:  []string{"only histories that respect the documented preconditions are generated (Open/Delete of existing names, Link from an existing name, Append on Create descriptors, ReadAt on Open descriptors, Close once)", "single client, no faults, no crash; those belong to C13/C14"},
 		ExpectProbes: []string{"scribble_after_append", "scribble_after_readat", "scribble_after_atomiccreate", "list_over_100_names", "real_kernel_runs"},
 	},
+	"C13": {
+		ID: "C13", Title: "AtomicCreate is all-or-nothing, durable-before-visible, interference-free",
+		Driver: "./drivers/machdrv", ModFile: "go.mod",
+		Rewrites: machRewrites(), Flavours: []string{"plain", "race"},
+		Quick:    TierParams{Runs: 1600, RaceRuns: 800, Budget: 5 * time.Minute},
+		Thorough: TierParams{Budget: 15 * time.Minute},
+		Level:    "fault_enumeration",
+		Rule: "plan index mod 4. (0,1) crash-point enumeration on DirFs over the simulated kernel: prior state = destination absent or old content (0..5000 bytes), optionally a leftover name.tmp of an interrupted earlier call (shorter, equal or longer than the new data; planted at the root and beside the destination), data of 0,1,100,4096 or 70000 bytes, write(2) limited to a few bytes per call in half of the plans; EVERY crash point (before each system call of the call) is executed in strict or ordered journal mode, crash survivors chosen per the durability model, remounted and read: the destination must be the previous state or exactly the data; then a fresh fault-free AtomicCreate over whatever was left behind must yield exactly its data. " +
+			"(2) single-fault enumeration: EVERY system call of the call x {errno (EACCES/ENOSPC/EIO), short write of 1 or half the bytes}: the call panics or returns; the destination is old-or-new at that moment and exactly new if it returned; then the fresh call as above. " +
+			"(3) concurrency: 1-3 creator tasks (independent names / same name in different directories / same name in one directory) plus a reader task under seeded schedules, on DirFs (2/3) or MemFs (1/3): every read sees the old state or one creator's complete data, no creator panics, each destination ends as the complete data of one of its creators. " +
+			"Non-trivial: a fault/crash fired inside the call or a leftover temp file existed (0-2), operations overlapped (3); distinct = distinct concrete plans resp. event-log fingerprints.",
+		Components:   machComponents,
+		Assumptions:  []string{"crash model: durable = fsynced data + journal prefix (strict: fsync(file) forces only that file; ordered: also all earlier metadata); unsynced writes persist in any subset, possibly torn", "visibility after a crash is what a remounted DirFs reads"},
+		ExpectProbes: []string{"batch_crash", "batch_fault", "batch_conc", "crash", "crash_new_visible", "crash_old_visible", "crash_with_rename_unforced", "fresh_call_over_leftover_tmp", "call_panicked_on_fault", "fault_absorbed", "conc_independent", "conc_same-name-same-dir", "conc_same-name-different-dirs"},
+	},
 	"C14": {
 		ID: "C14", Title: "Filesystem operations are linearizable under concurrency",
 		Driver: "./drivers/machdrv", ModFile: "go.mod",
